@@ -1,4 +1,5 @@
-import BddVerif.Lemmas.NormalFormExt
+import BddVerif.Lemmas.NormalFormOpt
+import BddVerif.Lemmas.NormalFormPanic
 /-!
 # C10 — normal-form construction and extraction preserve the function
 
@@ -82,6 +83,32 @@ theorem clause_ctor_spec (n : Nat) (c : PVal) :
   · obtain ⟨r, e, s⟩ := mkDisjClause_inRange h
     exact ⟨r, e, s.eq, s.numVars, s.den⟩
 
+/-- which inputs make `mk_cnf` panic, exactly: those with a clause that fixes a variable `≥ num_vars`
+    (through `assert!(index < self.num_vars)` of `mk_disjunctive_clause`, or through the duplicate
+    `assert_eq!` when such a clause shares its group with a different one); it never returns an `Err` -/
+theorem mk_cnf_panics_iff (n : Nat) (cs : List PVal) :
+    (mkCnf n cs).isErr = false ∧ ((mkCnf n cs).isPanic = true ↔ ∃ c ∈ cs, ¬ InRange n c) := by
+  refine ⟨(mkCnfRec_total n n cs).1, ⟨?_, (mkCnfRec_total n n cs).2⟩⟩
+  intro hp
+  apply Classical.byContradiction
+  intro hne
+  have hall : ∀ c ∈ cs, InRange n c := by
+    intro c hc
+    apply Classical.byContradiction
+    intro hnot
+    exact hne ⟨c, hc, hnot⟩
+  obtain ⟨r, e, _⟩ := mk_cnf_spec n cs hall
+  rw [e] at hp
+  cases hp
+
+/-- `mk_dnf` has NO such range assertion (it goes through `mk_partial_valuation`, not through
+    `mk_conjunctive_clause`): on a clause that fixes variable 0 over an empty variable set the model, like the
+    code, silently returns an array with a decision node on a variable that does not exist. Outside the
+    property (the clauses are not over the variable set); recorded because `mk_cnf` and both single-clause
+    constructors panic on the same input. -/
+example : mkDnf 0 [[some true]] = .ok #[⟨0, 0, 0⟩, ⟨0, 1, 1⟩, ⟨0, 0, 1⟩] := rfl
+example : (mkCnf 0 [[some true]]).isPanic = true := by decide
+
 /-! ### extraction -/
 
 /-- `to_dnf` of a reduced array: the loop ends within the fuel (no `panic "fuel"`), every clause is over the
@@ -134,6 +161,38 @@ theorem cnf_roundtrip (n : Nat) (f : (Nat → Bool) → Bool) (b : Arr) (hb : b 
     rw [e', hrc, hb]
     congr 1
     exact canon_congr (fun v => by rw [hsem v, s.den v])
+
+/-- `to_optimized_dnf` on a canonical array, for ANY function `card` steering the choice of the common core
+    (so in particular for the model of `exact_cardinality`): the recursion ends within the fuel `num_vars + 2`,
+    neither `assert!(!support.is_empty())` nor `assert!(!remaining.is_false())` fires, every clause is over the
+    variable set and is an implicant of the function, the clauses together denote the function, and
+    `mk_dnf(to_optimized_dnf(b)) == b` -/
+theorem opt_dnf_roundtrip (card : Arr → Nat) (n : Nat) (f : (Nat → Bool) → Bool) (b : Arr)
+    (hb : b = canon n f) (hf : Dep n f) :
+    ∃ cs, toOptimizedDnfWith card b = .ok cs ∧ (∀ c ∈ cs, InRange n c) ∧
+      (∀ c ∈ cs, ∀ v, conjFn c v = true → den b v = true) ∧ (∀ v, dnfFn cs v = den b v) ∧
+      mkDnf n cs = .ok b := by
+  have s : Sem n b f := ⟨hb, hf⟩
+  obtain ⟨cs, e, hr, hsem⟩ := toOptimizedDnfWith_sem card s
+  have hden : ∀ v, dnfFn cs v = den b v := fun v => by rw [hsem v, s.den v]
+  refine ⟨cs, e, hr, ?_, hden, ?_⟩
+  · intro c hc v hv
+    rw [← hden v]
+    unfold dnfFn
+    rw [List.any_eq_true]
+    exact ⟨c, hc, hv⟩
+  · obtain ⟨r, e', hrc, _⟩ := mk_dnf_spec n cs hr
+    rw [e', hrc, hb]
+    congr 1
+    exact canon_congr hsem
+
+/-- the instance the driver runs: `card` = the model of `Bdd::exact_cardinality` (`Model/Count.lean`) -/
+theorem opt_dnf_roundtrip_exactCard (n : Nat) (f : (Nat → Bool) → Bool) (b : Arr)
+    (hb : b = canon n f) (hf : Dep n f) :
+    ∃ cs, toOptimizedDnf b = .ok cs ∧ (∀ c ∈ cs, InRange n c) ∧ (∀ v, dnfFn cs v = den b v) ∧
+      mkDnf n cs = .ok b := by
+  obtain ⟨cs, e, hr, _, hden, hmk⟩ := opt_dnf_roundtrip B.exactCard n f b hb hf
+  exact ⟨cs, e, hr, hden, hmk⟩
 
 /-! ### non-vacuity -/
 
@@ -194,5 +253,11 @@ example : ∃ cs, toDnf (canon 3 (dnfFn [exC1, exC2])) = .ok cs ∧ mkDnf 3 cs =
   dnf_roundtrip 3 _ _ rfl exFn_dep
 example : ∃ cs, toCnf (canon 3 (dnfFn [exC1, exC2])) = .ok cs ∧ mkCnf 3 cs = .ok (canon 3 (dnfFn [exC1, exC2])) :=
   cnf_roundtrip 3 _ _ rfl exFn_dep
+example : ∃ cs, toOptimizedDnf (canon 3 (dnfFn [exC1, exC2])) = .ok cs ∧ (∀ c ∈ cs, InRange 3 c) ∧
+    (∀ v, dnfFn cs v = den (canon 3 (dnfFn [exC1, exC2])) v) ∧ mkDnf 3 cs = .ok (canon 3 (dnfFn [exC1, exC2])) :=
+  opt_dnf_roundtrip_exactCard 3 _ _ rfl exFn_dep
+/-- the operand of the three examples above is `(x0 ∧ ¬x2) ∨ ¬x1`, a 6-node diagram -/
+example : canon 3 (dnfFn [exC1, exC2]) =
+    #[⟨3, 0, 0⟩, ⟨3, 1, 1⟩, ⟨2, 1, 0⟩, ⟨1, 1, 2⟩, ⟨1, 1, 0⟩, ⟨0, 4, 3⟩] := by decide
 
 end B.Props.C10
